@@ -164,6 +164,9 @@ func GenC06(seed, index uint64, maxOps int) *Workload {
 	}
 	nexpr = addTextVariants(r, w, nexpr)
 	nops := 4 + r.Intn(maxOps-3)
+	if r.P(1, 60) {
+		nops = 100 + r.Intn(80) // behaviour that changes after N calls
+	}
 	var ops []Op
 	nslots := 0
 	nresults := 0
@@ -234,8 +237,11 @@ func GenC15(seed, index uint64) *Workload {
 		{Kind: simrt.PolNative},
 	}
 	w.Sched = simrt.Schedule{Kind: simrt.StratExplicit, Seed: r.U64()}
+	if r.P(1, 40) {
+		w.Note += " long-reuse"
+	}
 	if r.P(1, 30) {
-		w.Note = "gc-between"
+		w.Note += " gc-between"
 	}
 	return w
 }
